@@ -148,7 +148,7 @@ Section JoinCong.
 
   Lemma m_get_cong excl eids m i : forall env, m_get av1 hs excl eids m i env = m_get av2 hs excl eids m i env.
   Proof.
-    induction m as [sid|sid touch d| |l|sid|m IH|sid mode selmod selrem d others|k mode d|sid]; intros env; cbn [m_get];
+    induction m as [sid|sid touch d| |l|sid|m IH|sid mode selmod selrem d others|k mode d|sid|bop ba bb]; intros env; cbn [m_get];
       try reflexivity.
     - rewrite Hgen. reflexivity.
     - rewrite IH. reflexivity.
